@@ -31,7 +31,13 @@ def run(ctx):
     from . import machine, absint
     d_fb = 0
     STMT_LOC, ERR_LOC = machine.some([10, 4]), machine.some([12, 9])
-    for row, inner_loc, want in (("error-without-location", machine.none(), STMT_LOC), ("error-with-location", ERR_LOC, ERR_LOC), ("ok", None, None)):
+    # (the statement starts at line 10, column 4; own locations inside it: later line / larger column, later line / SMALLER column
+    # than the statement's start, same line / larger column, many lines later in column 1)
+    LATER_LEFT, SAME_LINE, FAR = machine.some([12, 2]), machine.some([10, 30]), machine.some([400, 1])
+    for row, inner_loc, want in (("error-without-location", machine.none(), STMT_LOC), ("error-with-location", ERR_LOC, ERR_LOC),
+                                 ("error-located-on-a-later-line-left-of-the-form-start", LATER_LEFT, LATER_LEFT),
+                                 ("error-located-on-the-same-line", SAME_LINE, SAME_LINE), ("error-located-many-lines-later", FAR, FAR),
+                                 ("ok", None, None)):
         payload = object()
         okv = object()
 
@@ -61,7 +67,7 @@ def run(ctx):
             keeps = getattr(res, "name", None) == "Err" and res.fields and isinstance(res.fields[0], absint.Enum) and res.fields[0].fields[0] is payload
             good = keeps and loc is not None and machine.key_of(loc) == machine.key_of(want)
             msg = "an error whose own location is %s comes out of eval_ast with location %r (same error: %s); expected %s" % (
-                "absent" if row == "error-without-location" else "present", loc, bool(keeps),
+                "absent" if row == "error-without-location" else "%r (the statement starts at %r)" % (inner_loc, STMT_LOC), loc, bool(keeps),
                 "the statement's location" if row == "error-without-location" else "its own location")
         ctx.inst("C15-fallback", "eval_ast/" + row, {"ok": bool(good)})
         ctx.oblige(bool(good))
@@ -71,7 +77,7 @@ def run(ctx):
     ors = [(b, t) for b, t in ea.calls() if callee_matches(t, "std::option::Option::or", "std::option::Option::or_else",
                                                            "std::option::Option::xor", "std::option::Option::and")]
     calls_inner = [(b, t) for b, t in ea.calls() if callee(t) == inner.name]
-    if d_fb >= 3:
+    if d_fb >= 6:
         pass          # decided by the table above
     elif len(calls_inner) != 1:
         ctx.report("C15-fallback", "eval_ast/shape", "eval_ast does not call eval_ast_error_no_location exactly once", where_of(ea))
